@@ -12,6 +12,8 @@
                                          | <n> <trace…> killed <0|1> disk <hex|none> load L
     c07.proto gen  <nf> (<act> <op>)… <hasold> <old> <new>
                                          | <n> <trace…> killed <0|1> disk <hex|none> load <hex|none|err>
+    c07.obj <nops> (c <stream> <off> | s)… <nf> (<save#> <act> <op>)…
+                                         | per save of the ONE process / offsetDB: sv <n> <trace…> killed <0|1> disk <hex|none> load L
     c07.csave <njobs> <m> <nsavers> <iters>   | per new file content: s <lo…> <hi…> L   (concurrent saves, oracle only)
     c07.hist file|gen|yaml <hasold> OLD <nsaves> (<nf> (<act> <op>)… NEW)…
                                          | per save: sv <n> <trace…> killed <0|1> disk <hex|none> load <…>
@@ -531,6 +533,43 @@ def handleHist (args impl : List String) : Option (String × String) :=
       some (m, if p then "ok" else "fail")
   | _ => none
 
+/-! ### c07.obj: saves on ONE long-lived offsetDB in one process (the buffer o.buf is carried) -/
+
+/-- the snapshots of the saves of an op list on one job (source 1): rendering and how it loads -/
+def objSaves : List SeqOp → CommitSnap.SMap → List (Bytes × String)
+  | [], _ => []
+  | .c _ st o :: ops, m =>
+    let value := match getOffset m st with | some v => v | none => 0
+    if value ≥ o then objSaves ops m else objSaves ops (setOffset m st o)
+  | .t _ :: ops, m => objSaves ops m
+  | .s :: ops, m =>
+    let t : JobTable := [seqJob (1, m)]
+    (render t, encLoaded (.ok (live t))) :: objSaves ops m
+
+def pObjOp : P SeqOp
+  | "c" :: ts => do
+    let (st, r) ← pBytes ts
+    let (o, r) ← pInt r
+    pure (.c 1 st o, r)
+  | "s" :: ts => some (.s, ts)
+  | _ => none
+
+def handleObj (args impl : List String) : Option (String × String) := do
+  let (ops, r) ← pCounted pObjOp args
+  let (nf, r) ← pNat r
+  if r.length ≠ 3 * nf then none
+  let saves := objSaves ops []
+  match pHistObs .file (impl.length + 1) impl with
+  | none => some ("bad-impl", "bad-impl")
+  | some obs =>
+    -- a killed process makes no further saves
+    let saves := if obs.any (·.killed) then saves.take obs.length else saves
+    let fs0 := (SaveProto.init none).fs
+    let m := unwords (histModel .file saves fs0 saves obs [])
+    let p := histOracle [encLoaded (.ok [])] none saves obs &&
+             histGood .fileFixed fs0 ((saves.zip obs).map (fun (sv, o) => (sv.1, o.ops)))
+    some (m, if p then "ok" else "fail")
+
 def handle (cmd : String) (args impl : List String) : Option (String × String) :=
   if cmd = "c07.rt" then handleRt args impl
   else if cmd = "c07.parse" then handleParse args impl
@@ -539,6 +578,7 @@ def handle (cmd : String) (args impl : List String) : Option (String × String) 
   else if cmd = "c07.conc" then handleConc args impl
   else if cmd = "c07.hist" then handleHist args impl
   else if cmd = "c07.csave" then handleCsave args impl
+  else if cmd = "c07.obj" then handleObj args impl
   else none
 
 end FileD.DrvC07
